@@ -58,8 +58,9 @@ EXPLANATION = ('validate_constants equals the documented rule list; accumulator 
 
 def run(ctx):
     # Engine M: the exact rate formula (not decided by SAT) and the trade-enable glue of the four swap handlers (handler mode, shared with C17)
-    from props import c14m, c17
+    # c14w: how swap() drives the manager (A0-A6: the step is charged the rate of THIS iteration, advance call matches the skip flag, major-swap timestamp arguments), abstract manager
+    from props import c14m, c17, c14w
     ctx.mir()
-    ctx.parallel([('rate', c14m.rate_task), ('handler:single', c17.single_task(False)), ('handler:single_v2', c17.single_task(True)),
-                  ('handler:two_hop', c17.two_hop_task(False)), ('handler:two_hop_v2', c17.two_hop_task(True))], max_procs=5)
+    ctx.parallel(c14w.tasks() + [('rate', c14m.rate_task), ('handler:single', c17.single_task(False)), ('handler:single_v2', c17.single_task(True)),
+                  ('handler:two_hop', c17.two_hop_task(False)), ('handler:two_hop_v2', c17.two_hop_task(True))], max_procs=8)
     ctx.run_kani(['c14.rs'])
